@@ -308,8 +308,16 @@ def np_prod(ex, state, v, line):
         raise Unsupported('np.prod of %s at line %d' % (type(v).__name__, line))
     if v.items is not None:
         return npmodel.prod(v.items)
-    info = getattr(v, 'slice_of', None)
-    raise Unsupported('np.prod of a symbolic-length list at line %d' % line)
+    # symbolic length: p is uninterpreted except for what holds for every product of non-negative integers:
+    #   p >= 0,  (p == 1  <=>  all factors == 1),  (p == 0  <=>  some factor == 0)
+    from vt.e1.symexec import FA
+    f, n = v.fn, zi(v.length)
+    ex.ctx.oblige(state, 'prod-of-nonnegative-ints', line, FA(0, n, lambda j: zi(f(j)) >= 0))
+    p = fresh('prod')
+    state.assume(p >= 0)
+    state.assume((p == 1) == FA(0, n, lambda j: zi(f(j)) == 1))
+    state.assume((p >= 1) == FA(0, n, lambda j: zi(f(j)) >= 1))
+    return p
 
 
 def qr_rq(ex, state, name, a, kw, line):
